@@ -56,7 +56,8 @@ KEYS = ["context_name", "task_options_name", "manager_options_name"]
 NAMEPOOL = ["context", "options", "ctx", "opts", "config", "cfg_2", "o",
             "settings"]
 OPTKEYS = ["month", "model", "site", "lam", "k1", "alpha_b", "x", "n_iter"]
-INTS = [0, 1, 2, 10, 11, 12, -1, 100, 7, 21]
+INTS = [0, 1, 2, 10, 11, 12, -1, 100, 7, 21, 20200101, 1000000, -1234567,
+        20200102]
 STRS = ["a", "ab", "abc", "b", "x_1", "x_10", "GR4J", "gr", "Z", "a1"]
 FLOATS = [0.5, 2.5, -1.5]
 
@@ -424,6 +425,16 @@ def run(cs, log, ctx):
                   ManagerModel("second", ctx2, spec2)]
             if mm[1].tasks == mm[0].tasks and mm[1].context == mm[0].context:
                 mm[1] = ManagerModel("second", dict(ctx2, extra=1), spec2)
+            if cs.flip("second_is_variant_of_first", 30):
+                # same option grid as the first manager, other name, context
+                # with one entry less (or one more): a near-copy that must
+                # nevertheless replace the first one when saved over it
+                ctxv = dict(ctx1)
+                if ctxv and cs.flip("drop_ctx", 60):
+                    ctxv.pop(sorted(ctxv)[0])
+                else:
+                    ctxv["revision"] = 2
+                mm[1] = ManagerModel("second", ctxv, spec1)
             nbatch = cs.between("nbatch", 1, 8)
             if nbatch > len(mm[0].tasks) and not cs.flip("keep_overbatch", 15):
                 nbatch = 1 + cs.draw("nbatch2", len(mm[0].tasks))
